@@ -15,6 +15,12 @@
       push(f, n):   n->next = NULL;  prev = xchg(&f->tail, n);  prev->next = n;
       trypop(f):    h = f->head;  x = h->next;
                     if (x) { f->head = x;  h->data = x->data;  return h; }  return NULL;
+      peek(f, data): h = f->head;  x = h->next;
+                    if (x) { *data = x->data;  return 1; }  return 0;
+                    (consumer side only: it reads `head`, which only the consumer writes; `*data`
+                    is the caller's local.  mpsc_fifo.h only — spsc_fifo.h and
+                    mpsc_relaxed_fifo.h have no peek, so `step` accepts `call peek` for
+                    `Kind.mpsc` alone.)
   (spsc_fifo.h — `Kind.spsc`; the xchg is a load followed by a store, there is one producer):
       push(f, n):   store(&n->next, NULL);  prev = load(&f->tail);  store(&f->tail, n);
                     store(&prev->next, n);
@@ -23,7 +29,8 @@
 
   Client obligations (mpsc_fifo.h: "the FIFO owns new_node after pushing", single consumer;
   spsc_fifo.h: additionally a single producer) are explicit: `step` REJECTS
-    * a second `trypop` while one is in progress (single consumer),
+    * a second `trypop` / `peek` while a `trypop` or `peek` is in progress (single consumer:
+      the consumer side runs one operation at a time),
     * (`Kind.spsc`) a second `push` while one is in progress (single producer),
     * a push of a node that is in the queue, is being pushed by another thread, or is still
       inside the trypop that hands it out (node ownership),
@@ -35,7 +42,10 @@
   most recently published node, in publication (tail xchg / tail store) order; `pushed` =
   payloads in publication order; `popped` = payloads in the order successful trypops
   returned them; `called` / `returned` = payloads whose push was invoked / has returned;
-  `holder n` = the producer thread that currently uses node `n` for a push.
+  `holder n` = the producer thread that currently uses node `n` for a push;
+  `peeked` = one entry `(i, v)` per peek that returned a payload: `v` = the payload it
+  reported, `i` = the number of successful trypops that had returned before it (so "the next
+  successful trypop after that peek" is the one that fills `popped[i]`).
 -/
 import LibfiberVerif.Core.Sys
 import LibfiberVerif.Core.Event
@@ -73,6 +83,12 @@ inductive CPc
   | wrote (h d : Nat)
   /-- the client read the payload out of the returned node -/
   | readBack (h d : Nat)
+  /-- `mpsc_fifo_peek` called -/
+  | pkCalled
+  | pkGotHead (h : Nat)
+  | pkGotNext (h x : Nat)
+  /-- `*data = x->data` done (the read of `x->data` is the shared access) -/
+  | pkGotData (h x d : Nat)
   deriving Repr, DecidableEq, Inhabited
 
 /-- the node a trypop in progress has taken out of the queue -/
@@ -99,6 +115,9 @@ inductive Ev
   | wrDataPop (t n x : Nat)
   | rdDataClient (t n x : Nat)
   | retPop (t v : Nat)
+  | callPeek (t : Nat)
+  | rdDataPeek (t n x : Nat)
+  | retPeek (t v : Nat)
   deriving Repr, DecidableEq, Inhabited
 
 structure St where
@@ -118,13 +137,14 @@ structure St where
   called : List Nat
   returned : List Nat
   holder : Nat → Option Nat
+  peeked : List (Nat × Nat)
 
 /-- `stub` is the node `*_fifo_init` allocated. -/
 def init (stub : Nat) : St :=
   { head := stub, tail := stub, next := fun _ => 0, data := fun _ => 0,
     pc := fun _ => .idle, cpc := .idle, ct := 0, pusher := none,
     q := [stub], pushed := [], popped := [], called := [], returned := [],
-    holder := fun _ => none }
+    holder := fun _ => none, peeked := [] }
 
 /-- the publication step: `xchg(&tail, n)` resp. `store(&tail, n)` -/
 def publish (s : St) (t v n p : Nat) : St :=
@@ -184,11 +204,14 @@ def step (k : Kind) (s : St) : Ev → Option St
   | .rdHead t x =>
     match s.cpc with
     | .called => if t = s.ct ∧ x = s.head then some { s with cpc := .gotHead x } else none
+    | .pkCalled => if t = s.ct ∧ x = s.head then some { s with cpc := .pkGotHead x } else none
     | _ => none
   | .rdNext t n x =>
     match s.cpc with
     | .gotHead h =>
       if t = s.ct ∧ n = h ∧ x = s.next h then some { s with cpc := .gotNext h x } else none
+    | .pkGotHead h =>
+      if t = s.ct ∧ n = h ∧ x = s.next h then some { s with cpc := .pkGotNext h x } else none
     | _ => none
   | .wrHead t x =>
     match s.cpc with
@@ -220,6 +243,24 @@ def step (k : Kind) (s : St) : Ev → Option St
     | .readBack _ d =>
       if t = s.ct ∧ v = d then some { s with cpc := .idle, popped := s.popped ++ [d] } else none
     | _ => none
+  | .callPeek t =>
+    if k = .mpsc ∧ s.cpc = .idle ∧ s.pc t = .idle then some { s with cpc := .pkCalled, ct := t }
+    else none
+  | .rdDataPeek t n d =>
+    match s.cpc with
+    | .pkGotNext h x =>
+      if t = s.ct ∧ x ≠ 0 ∧ n = x ∧ d = s.data x then some { s with cpc := .pkGotData h x d }
+      else none
+    | _ => none
+  | .retPeek t v =>
+    match s.cpc with
+    | .pkGotNext _ x =>
+      if t = s.ct ∧ x = 0 ∧ v = 0 then some { s with cpc := .idle } else none
+    | .pkGotData _ _ d =>
+      if t = s.ct ∧ v = d then
+        some { s with cpc := .idle, peeked := s.peeked ++ [(s.popped.length, d)] }
+      else none
+    | _ => none
 
 def sys (k : Kind) (stub : Nat) : Sys St Ev := { init := init stub, step := step k }
 
@@ -249,6 +290,7 @@ def nodeCell (c : String) : Option (Nat × String) :=
   | _ => none
 
 def isTrypop (func : String) : Bool := (func.splitOn "trypop").length > 1
+def isPeek (func : String) : Bool := (func.splitOn "fifo_peek").length > 1
 
 /-- API notes common to the queue harnesses -/
 def noteEv (t : Nat) : List String → Option Ev
@@ -256,6 +298,8 @@ def noteEv (t : Nat) : List String → Option Ev
   | ["ret", "push", v] => v.toNat?.map (Ev.retPush t)
   | ["call", "pop"] => some (Ev.callPop t)
   | ["ret", "pop", v] => v.toNat?.map (Ev.retPop t)
+  | ["call", "peek"] => some (Ev.callPeek t)
+  | ["ret", "peek", v] => v.toNat?.map (Ev.retPeek t)
   | _ => none
 
 /-- plain accesses to `n<k>.data` (both queues) -/
@@ -269,7 +313,9 @@ def dataEv (r : RawEv) : Option Ev :=
   | "r", [c, x] => do
     let (n, f) ← nodeCell c
     let x ← x.toNat?
-    if f = "data" then pure (if isTrypop r.func then Ev.rdDataPop r.tid n x else Ev.rdDataClient r.tid n x)
+    if f = "data" then
+      pure (if isTrypop r.func then Ev.rdDataPop r.tid n x
+            else if isPeek r.func then Ev.rdDataPeek r.tid n x else Ev.rdDataClient r.tid n x)
     else none
   | _, _ => none
 
@@ -292,6 +338,50 @@ def ofRaw (r : RawEv) : Option Ev :=
     | _ => dataEv r
   | _, _ => none
 
+/-! ### API-level oracle for peek (the generic queue monitor ignores the peek notes)
+
+    One consumer: its peeks and pops are sequential.  After a peek reported payload `w`,
+    every further peek before the next pop must report `w` again (in particular not "empty"),
+    and the next pop must return `w`.  A peek never reports a payload that was not handed to
+    push before, nor one a pop has already returned. -/
+
+structure PeekAcc where
+  /-- payload reported by a peek since the last pop returned -/
+  pend : Option Nat := none
+  called : List Nat := []
+  popped : List Nat := []
+  bad : Option String := none
+
+def peekStep (a : PeekAcc) (r : RawEv) : PeekAcc :=
+  if a.bad.isSome || r.kind ≠ "note" then a else
+  match r.args with
+  | ["call", "push", v] => { a with called := v.toNat?.getD 0 :: a.called }
+  | ["ret", "peek", v] =>
+    let v := v.toNat?.getD 0
+    match a.pend with
+    | some w =>
+      if v = w then a
+      else { a with bad := some s!"peekUnstable: peek reported {w}, a later peek reported {v}, no pop in between" }
+    | none =>
+      if v = 0 then a
+      else if !a.called.contains v then
+        { a with bad := some s!"peekInvented: peek reported {v} which was not pushed before" }
+      else if a.popped.contains v then
+        { a with bad := some s!"peekStale: peek reported {v} which a pop had already returned" }
+      else { a with pend := some v }
+  | ["ret", "pop", v] =>
+    let v := v.toNat?.getD 0
+    let a' := { a with pend := none, popped := if v = 0 then a.popped else v :: a.popped }
+    match a.pend with
+    | some w =>
+      if v = w then a'
+      else { a with bad := some s!"peekMismatch: peek reported {w} but the consumer's next pop returned {v}" }
+    | none => a'
+  | _ => a
+
+def peekMonitor (lines : List String) : Option String :=
+  ((lines.filterMap parseLine).foldl peekStep {}).bad
+
 /-- `verifdrv Mpsc <log>`; the harness names the initial stub `n1`.
     Monitor: strict (real-time) FIFO; an empty report is judged only when no push overlaps
     the pop (a pop may report empty while an earlier push sits between its xchg and its
@@ -302,6 +392,9 @@ def drive (lines : List String) : IO UInt32 := do
     let body := lines.filter (fun l => !isInit l)
     let v := validate (sys .mpsc 1) ofRaw body
     let mon := queueMonitor { disc := .fifo, capacity := 0, drained := true, failOnlyAlone := true } body
+    let mon := match mon with
+      | some m => some m
+      | none => peekMonitor body
     report "Mpsc" v mon
   | _ => IO.println "VALIDATE DIVERGE missing init"; return 1
 
